@@ -574,7 +574,27 @@ pub fn run(t: &mut Toks) -> Result<String, Bad> {
         let mut handles: Vec<Op> = Vec::new();
 
         for action in &prog {
-            shared.borrow_mut().log.push("#".into());
+            let code = match action {
+                Action::Connect(_) => 0,
+                Action::Publish(_) => 1,
+                Action::Subscribe(..) => 2,
+                Action::Unsubscribe(..) => 3,
+                Action::Disconnect(_) => 4,
+                Action::Drive => 5,
+                Action::Poll => 6,
+                Action::Recv => 7,
+                Action::Feed(..) => 8,
+                Action::Advance(_) => 9,
+                Action::DropConn => 10,
+                Action::HandleDisconnect => 11,
+                Action::SetBroker(_) => 12,
+                Action::SetPid(_) => 13,
+            };
+            let marker = match action {
+                Action::Publish(p) => format!("#{}:{}", code, p.qos as u8),
+                _ => format!("#{}", code),
+            };
+            shared.borrow_mut().log.push(marker);
             let line: String = match action {
                 Action::Connect(chunks) => {
                     conn = None;
